@@ -6,6 +6,7 @@ mod c08;
 mod c11;
 mod c13;
 mod c16;
+mod c20;
 mod client;
 mod editor;
 mod repo;
@@ -26,6 +27,7 @@ fn run_object(v: &Value) -> Value {
         10 => editor::run(rt, pool, v),
         15 => client::run_single(rt, pool, v),
         13 => c13::key_table(pool, v),
+        20 => c20::inspect(pool, v),
         _ => json!([999]),
     }))
 }
@@ -47,6 +49,7 @@ fn run_case(v: &Value) -> Value {
         11 => c11::run(op, args),
         13 => POOL.with(|pool| c13::run(pool, op, args)),
         16 => c16::run(op, args),
+        20 => POOL.with(|pool| c20::run(pool, op, args)),
         _ => json!([999]),
     }
 }
